@@ -10,7 +10,7 @@ applied to a value-carrying expression (0, 0.0, False, '' are legitimate values)
 objects have no __bool__/__len__; (R4) every return of parse() is dominated by the loop that
 rejects declared-but-undefined nodes, and the constant flag written by the property is the one the
 dispatch reads; (R5) width/sign/unit of the definition are carried by every value constructor.
-NOT decided: conversion numerics (C04), literal casting (C13)."""
+NOT decided: conversion numerics (C04), literal casting (C13). (R6) properties attach to the node defined or modified last (shared with C16.R8); (R7) node copies are deep (shared with C16.R9)."""
 import ast
 
 from ..model import AnalysisError, dotted_name, methods, norm, walk_no_nested
